@@ -409,12 +409,12 @@ package modbus
 //@   local regs modbus.RegProvider#1
 //@   local regsChanged bool#1
 //@   local resp modbus.PDU#1
-//@   local address uint16#1
-//@   local count uint16#2
+//@   local address uint16#1,3,6,8,10,12
+//@   local count uint16#2,4
 //@   local bytes byte#1
-//@   local i int#2
-//@   local err error#1
-//@   local quantity uint16#9
+//@   local i int#2,3,4,5
+//@   local err error#1,2,3,4,5,6
+//@   local quantity uint16#9,13
 //@   dispatch RegProvider *Regs
 //@   requires p != nil && typeIs(regs, *Regs) && RG(regs) != nil
 //@   modifies RG(regs).regs
